@@ -498,12 +498,16 @@ def gen_cases(ctx):
     return cases
 
 
+# C10 / C11: the sequential specification of the MTBDD / TDD operations (C07m)
+DD_PROPS = ["--props", "C01,C02,C03,C04,C05,C09,C12,C10,C11"]
+
+
 def run_both(ctx, binp, drv_dd, drv_tr, cases, tag="", stat_prefix=""):
     """sharded: implementation trace -> DD driver verdicts + trace-replay verdicts"""
     from concurrent.futures import ThreadPoolExecutor
     nsh = max(1, min(8, len(cases)))     # 8 shards: every case runs several threads itself
     shards = [cases[i::nsh] for i in range(nsh)]
-    props = ["--props", "C01,C02,C03,C04,C05,C09,C12,C10,C11"]   # C10 / C11: the sequential specification of the MTBDD / TDD operations (C07m)
+    props = DD_PROPS
 
     def one(k):
         f = os.path.join(ctx.workdir, f"cases{tag}-{k}.txt")
@@ -530,6 +534,57 @@ def run_both(ctx, binp, drv_dd, drv_tr, cases, tag="", stat_prefix=""):
     return res
 
 
+def shrink_racy(ctx, binp, drv, dargs, header, ops, tries=4, budget=30):
+    """C07m: ddmin over the op lines of a case whose failure depends on the interleaving: every candidate is run
+    `tries` times (as `tries` copies of the case in one harness / driver invocation) and kept iff one of the copies
+    fails with kind=prop.  Returns (ops, message) or (ops, None) if not even the full case fails again."""
+    tmp = os.path.join(ctx.workdir, "shrink-racy.txt")
+    rest = header.split(" ", 1)[1]
+
+    def bad(cand):
+        vf.write_cases(tmp, [(f"s{i} {rest}", cand) for i in range(tries)])
+        try:
+            vf.run_impl(binp, tmp, tmp + ".impl", timeout=600, env={"VERIF_HANG_MS": "20000"})
+            _ok, bads, _st = vf.run_driver(drv, tmp + ".impl", tmp + ".verdicts", args=dargs)
+        except Exception:
+            return None
+        for _c, m in bads:
+            if "kind=prop" in m and not vf.RESOURCE_RE.search(m):
+                return m
+        return None
+
+    def protect(o):
+        return o.split()[0] in ("VARS", "PAR", "ENDPAR") or " PGC" in o
+
+    cur = list(ops)
+    cur_msg = bad(cur)
+    if cur_msg is None:
+        return ops, None
+    n, runs = 2, 0
+    while len(cur) >= 2 and runs < budget:
+        chunk = max(1, len(cur) // n)
+        reduced = False
+        i = 0
+        while i < len(cur) and runs < budget:
+            cand = [o for j, o in enumerate(cur) if not (i <= j < i + chunk) or protect(o)]
+            if len(cand) == len(cur):
+                i += chunk
+                continue
+            runs += 1
+            m = bad(cand)
+            if m is not None:
+                cur, cur_msg = cand, m
+                n = max(n - 1, 2)
+                reduced = True
+            else:
+                i += chunk
+        if not reduced:
+            if chunk == 1:
+                break
+            n = min(n * 2, len(cur))
+    return cur, cur_msg
+
+
 def case_trace(impl_file, cid):
     for h, ops in vf.parse_cases(open(impl_file).read()):
         if h.split()[0] == cid:
@@ -539,14 +594,17 @@ def case_trace(impl_file, cid):
 
 def replay_controls(ctx, drv_tr):
     """The replay of the apply cache events must reject the hand-written protocol violations of
-    corpus/C07/cache-protocol-controls.txt (cases n*) and accept the protocol-conforming log (p1)."""
-    f = os.path.join(vf.ROOT, "corpus", "C07", "cache-protocol-controls.txt")
-    ok, bad, _ = vf.run_driver(drv_tr, f, os.path.join(ctx.workdir, "controls.txt"))
-    want_bad = {l.split()[1] for l in open(f) if l.startswith("CASE n")}
-    got_bad = {c for c, m in bad if "kind=prop" in m}
-    if ok != 1 or got_bad != want_bad or len(bad) != len(want_bad):
-        raise vf.CheckFailure(f"the cache protocol replay does not classify its control logs as expected: ok={ok} bad={sorted(c for c, _ in bad)}")
-    ctx.add_stat("cache_protocol_controls_rejected", len(got_bad))
+    corpus/C07/cache-protocol-controls.txt (cases n*) and accept the protocol-conforming log (p1); the end-state
+    audit of the terminal table (C07m) must reject the snapshots of corpus/C07/terminal-audit-controls.txt (two slots
+    with one value, handle / child edge to a terminal the manager does not list) and accept p2."""
+    for name in ("cache-protocol-controls.txt", "terminal-audit-controls.txt"):
+        f = os.path.join(vf.ROOT, "corpus", "C07", name)
+        ok, bad, _ = vf.run_driver(drv_tr, f, os.path.join(ctx.workdir, "controls-" + name))
+        want_bad = {l.split()[1] for l in open(f) if l.startswith("CASE n")}
+        got_bad = {c for c, m in bad if "kind=prop" in m}
+        if ok != 1 or got_bad != want_bad or len(bad) != len(want_bad):
+            raise vf.CheckFailure(f"the trace driver does not classify the control logs of corpus/C07/{name} as expected: ok={ok} bad={sorted(c for c, _ in bad)}")
+        ctx.add_stat("cache_protocol_controls_rejected" if name.startswith("cache") else "terminal_audit_controls_rejected", len(got_bad))
 
 
 def run(ctx):
@@ -610,15 +668,27 @@ def run(ctx):
             hk = " ".join(t for t in header.split()[1:] if t.split("=")[0] in ("kind", "threads", "seed", "yield"))
             mgr = "pointer" if cid.startswith(PTR_PREFIX) else "index"
             sig = f"{kind}:{src}:{cls[1]}:{cls[2]}:{hk}:manager={mgr}:case-{cid}"
+            unshrunk = len(ops)
+            fam = (cid[len(PTR_PREFIX):] if cid.startswith(PTR_PREFIX) else cid)[:1]
+            if kind == "prop" and fam in ("m", "d"):
+                # C07m: ddmin over the op lines (4 runs per candidate: a candidate is only kept if it failed again;
+                # the failing interleaving need not recur, then the case stays as generated)
+                try:
+                    drv, dargs = (drv_tr, ()) if src == "trace" else (drv_dd, DD_PROPS)
+                    sh_ops, sh_msg = shrink_racy(ctx, bin_of(cid), drv, dargs, header, ops)
+                    if sh_msg is not None and len(sh_ops) < len(ops):
+                        ops, msg = sh_ops, sh_msg
+                except Exception as e:      # shrinking is best effort
+                    vf.log(f"shrinking case {cid} failed: {e}")
             vf.report_violation(
                 ctx, sig,
                 {"stage": "correspondence", "kind": kind, "source": "trace replay (coq/Mgr/Conc.v step_tbl, coq/Mgr/ConcCache.v clstep)" if src == "trace" else "result / snapshot audit against the sequential specification",
-                 "case_header": header, "ops": ops, "verdict": msg, "manager": mgr,
+                 "case_header": header, "ops": ops, "ops_before_shrinking": unshrunk, "verdict": msg, "manager": mgr,
                  "build": "h_dd, RUSTFLAGS=--cfg oxidd_verif, " + ("--no-default-features --features " + POINTER_CFG + " (oxidd-manager-pointer)" if mgr == "pointer" else "default features (oxidd-manager-index)"),
                  "logged_table_events_of_the_failing_run": events[:400],
                  "note": "the interleaving is chosen by the OS scheduler and the seeded perturbation; --replay re-runs this case (several times) with the same seed",
                  "replay_cmd": "./check C07 --replay <this file>",
-                 "theorem_or_relation": "C07: coq/Props/C07.v (C07_run_inv, C07_conc_canonical, C07_erase_sim; apply cache: C07_cache_run_inv, C07_cache_trace_sim, C07_cache_clog_inv); driver relation named in the verdict"},
+                 "theorem_or_relation": "C07: coq/Props/C07.v (C07_run_inv, C07_conc_canonical, C07_erase_sim; apply cache: C07_cache_run_inv, C07_cache_trace_sim, C07_cache_clog_inv; terminals of MTBDDs: C07_term_run_inv, C07_term_gc_safe, C07_term_hit_memo, C07_term_lift_inv); driver relation named in the verdict"},
                 nfif=(kind != "prop"))
     ctx.samples = [{"case": h, "ops": ops[:30] + (["..."] if len(ops) > 30 else [])} for h, ops in (cases[:1] + cases[-1:] + pcases[:1])]
     ctx.stats["cases"] = len(cases) + len(pcases)
